@@ -167,6 +167,39 @@ def directed():
         if n:
             yield {"steps": steps0 + [{"op": "assign", "u": u, "rs": 0, "cs": None, "has_cs": False, "vk": "scalar", "val": 888},
                                       {"op": "obs", "u": "a0", "what": "ravel", "arg": None}, {"op": "obs", "u": u, "what": "tolist", "arg": None}], "hazard": False}
+    # the same chains of selections on rows of thousands of cells (mean row length beyond 5000), read and written through
+    long_rows = [[(7 * i + 3 * j) % 1000 + 1000 * i for j in range(L)] for i, L in enumerate([21001, 18000, 0, 24003, 15002, 18001])]
+    for rname, chain in RECV_SELS.items():
+        steps0 = [{"op": "init", "v": "a0", "rows": long_rows}]
+        cur = long_rows
+        for k, (rs, cs, h) in enumerate(chain):
+            steps0.append({"op": "sel", "v": "a%d" % (k + 1), "u": "a%d" % k, "rs": rs, "cs": cs, "has_cs": h})
+            cur = prog.m_sel(cur, rs, cs, h)[1]
+        u = "a%d" % len(chain)
+        yield {"steps": steps0 + [{"op": "obs", "u": u, "what": "sum1", "arg": None}, {"op": "obs", "u": u, "what": "tolist", "arg": None},
+                                  {"op": "assign", "u": u, "rs": Ellipsis, "cs": None, "has_cs": False, "vk": "scalar", "val": 777},
+                                  {"op": "obs", "u": "a0", "what": "sum1", "arg": None}, {"op": "obs", "u": u, "what": "meta", "arg": None}], "hazard": False}
+        for cs2 in (slice(None, None, -2), slice(-2, None, -3), slice(1, None, 2)):
+            yield {"steps": steps0 + [{"op": "sel", "v": "z", "u": u, "rs": slice(None), "cs": cs2, "has_cs": True}, {"op": "obs", "u": "z", "what": "tolist", "arg": None},
+                                      {"op": "obs", "u": "z", "what": "sum1", "arg": None}], "hazard": False}
+    # hundreds of equally long rows (a buffer of several kilobytes) selected through row lists that are sorted and repeat rows, keep the first and the last
+    # row, are permuted blocks, ...: the derived array must hold exactly the selected rows
+    many = [[100 * i + j for j in range(3)] for i in range(700)]
+    for q in range(24):
+        n_ = len(many)
+        kind_ = q % 4
+        if kind_ == 0:
+            rs = sorted([0, n_ - 1] + [rng.randrange(n_) for _ in range(n_ - 2)])                  # sorted, with repeats, as long as the array, first and last row kept
+        elif kind_ == 1:
+            rs = sorted([0, n_ - 1] + [rng.randrange(n_) for _ in range(rng.randint(50, 900))])
+        elif kind_ == 2:
+            blk = list(range(100, 600))
+            rng.shuffle(blk)
+            rs = list(range(100)) + blk + list(range(600, n_))                                       # a permutation that keeps the ends
+        else:
+            rs = np.array(sorted(rng.sample(range(n_), 650)), dtype=np.int64)                        # sorted with gaps
+        yield {"steps": [{"op": "init", "v": "a0", "rows": many}, {"op": "sel", "v": "a1", "u": "a0", "rs": rs, "cs": None if q % 3 else slice(None, None, -1), "has_cs": not (q % 3)},
+                         {"op": "obs", "u": "a1", "what": "sum1", "arg": None}, {"op": "obs", "u": "a1", "what": "tolist", "arg": None}, {"op": "obs", "u": "a0", "what": "meta", "arg": None}], "hazard": False}
     # the known finding F10: a selection stays an alias of its source until first read (class B)
     yield {"steps": [{"op": "init", "v": "a0", "rows": [[1, 2], [3], [4, 5, 6]]}, {"op": "sel", "v": "a1", "u": "a0", "rs": slice(1, 3), "cs": None, "has_cs": False},
                      {"op": "assign", "u": "a0", "rs": 1, "cs": None, "has_cs": False, "vk": "scalar", "val": 99}, {"op": "obs", "u": "a1", "what": "tolist", "arg": None}], "hazard": True}
